@@ -134,6 +134,9 @@ def programs(tier):
         ne = len(edges)
         if ne <= 2:
             combos = list(itertools.product(SPELLINGS, repeat=ne))
+        elif tier == "thorough":
+            # every combination of spellings for the three edges as well
+            combos = [c for c in itertools.product(SPELLINGS, repeat=ne) if "future" not in c or set(c) == {"future"}]
         else:
             combos = [(s,) * ne for s in SPELLINGS] + [("str", "list", "optional"), ("dict", "logical", "str"),
                                                        ("union-none", "str-generic", "list")]
